@@ -1,4 +1,4 @@
-//! `vh fsweep <stride> <offset> <threads> [batch]`: C19 sweep over f32 bit patterns (every `stride`-th pattern starting at
+//! `vh fsweep <stride> <offset> <threads> [batch] [with_f64=1|0]`: C19 sweep over f32 bit patterns (every `stride`-th pattern starting at
 //! `offset`; stride 1 = all 2^32): finite values are written with JSONArrayOfFloats::to_json_from_list_f32 in batches,
 //! parsed back with parse_as_list_f32 and compared bit for bit (-0.0 and 0.0 compare equal, as JSON numbers do).
 //! The same patterns widened to f64 go through the f64 list functions.
@@ -21,6 +21,7 @@ pub fn run(args: &[String]) {
     let offset: u64 = args.get(1).and_then(|s| s.parse().ok()).unwrap_or(0);
     let threads: u64 = args.get(2).and_then(|s| s.parse().ok()).unwrap_or(16);
     let batch: usize = args.get(3).and_then(|s| s.parse().ok()).unwrap_or(64);
+    let with_f64: bool = args.get(4).map(|s| s != "0").unwrap_or(true);
     let total = Arc::new(AtomicU64::new(0));
     let nm = Arc::new(AtomicU64::new(0));
     let mism: Arc<Mutex<Vec<String>>> = Arc::new(Mutex::new(vec![]));
@@ -61,6 +62,10 @@ pub fn run(args: &[String]) {
                     }
                     Ok(Err(e)) => report("f32", format!("{:08x}", cur[0].to_bits()), &e, "Err".to_string()),
                     Err(_) => report("f32", format!("{:08x}", cur[0].to_bits()), "-", "PANIC".to_string()),
+                }
+                if !with_f64 {
+                    cur.clear();
+                    return;
                 }
                 // the same values as f64 (exactly representable), through the f64 functions
                 let wide: Vec<f64> = cur.iter().map(|x| *x as f64).collect();
